@@ -15,8 +15,7 @@ GRID = [0, 3, 4, 6, 8, 9, 12, 15, 16, 18, 20, 21]      # /24 : 0,1/8,1/6,1/4,1/3
 X, Y, Z, NF = 331, 787, 509, 2400                       # generic coordinates / 2400
 
 
-def families():
-    x, y, z, n = X, Y, Z, NF
+def families(x=X, y=Y, z=Z, n=NF):
     h, q, e = n // 2, n // 4, n // 8
     th = n // 3
     F = [(x, x, z), (x, 2 * x, z), (x, -x, z), (x, 0, 0), (0, 0, z), (x, x, x), (x, y, z),
@@ -103,7 +102,9 @@ def run(tier, seed):
     suite = suite_multiplicity_events(wd, tabs, dic)
     rng = random.Random(seed)
     grid = [([a, b, c], 24) for a in GRID for b in GRID for c in GRID]
-    fam = families() + [([0, 0, 0], 24), ([0, 0, 12], 24)]
+    # second generic triple: decimal coordinates with a 5 in the sixth place (0.123455, 0.271, 0.062505) - rounding ties of a
+    # 1e-5 grid: images of one point reached along different float routes (x, 1-(1-x), x+1/2+1/2) must still count once
+    fam = families() + [([0, 0, 0], 24), ([0, 0, 12], 24)] + families(370365, 813000, 187515, 3000000)
     nt = len(tabs)
     if tier == "quick":
         cases = []
